@@ -1,6 +1,7 @@
 import Fv.Driver.Proto
 import Fv.Chan.Lin
 import Fv.Chan.Bcast
+import Fv.Chan.Fut
 /-
 Engine `chan`: replays the history transcripts of `chanh` (see /verif/harness/chan/README.md).
 
@@ -26,6 +27,9 @@ structure CaseSt where
   seqMode : Bool := true
   s : St := {}
   b : Option BSt := none            -- broadcast (spmc) cases
+  futMode : Bool := false           -- mode=async: manual-poll futures, checked with `linearizeF`
+  histF : List EvF := []            -- reversed
+  futOps : List (Nat × Op) := []    -- future name ↦ the blocking form it was made from
   pending : Option (Nat × Op) := none
   hist : List Ev := []               -- reversed
   nOps : Nat := 0
@@ -60,7 +64,9 @@ def init (ws : List String) : Except String CaseSt :=
     let threads := ((kv ws "threads").bind String.toNat?).getD 1
     let seqMode := (kv ws "mode") == some "seq" || threads ≤ 1
     match parseFlavour f cap with
-    | some fl => .ok { fl := fl, flTok := f, seqMode := seqMode, s := Fv.Chan.init fl }
+    | some fl =>
+      if (kv ws "mode") == some "async" then .ok { fl := fl, flTok := f, seqMode := false, futMode := true, s := Fv.Chan.init fl }
+      else .ok { fl := fl, flTok := f, seqMode := seqMode, s := Fv.Chan.init fl }
     | none =>
       if f == "spmc" || f == "spmc_async" then
         if seqMode then .ok { seqMode := true, b := some (binit cap (f == "spmc_async")) }
@@ -122,6 +128,7 @@ def showTag : Tag → String
   | .ok => "ok" | .full => "full" | .closed => "closed" | .sentAlready => "sent" | .empty => "empty"
   | .disconnected => "disconnected" | .timeout => "timeout" | .closeErr => "close" | .blocks => "blocks"
   | .unsupported => "unsupported" | .noHandle => "nohandle" | .nameExists => "exists"
+  | .pending => "pending" | .busy => "busy" | .noFut => "nofut" | .futDone => "futdone"
 
 def showPVal : PVal → String
   | .none => "-" | .n k => s!"n:{k}" | .b x => toString x
@@ -237,6 +244,55 @@ def parseDrops (ws : List String) : Option (List (Nat × Nat)) :=
       | _, _ => none
     | _ => none
 
+def parseFutName (s : String) : Option Nat :=
+  match s.toList with
+  | 'f' :: r => (String.ofList r).toNat?
+  | _ => none
+
+/-- `fut f0 = send_fut s0 1` etc. -/
+def parseOpF (ws : List String) : Option OpF :=
+  match ws with
+  | "fut" :: f :: "=" :: kind :: rest =>
+    match parseFutName f, kind with
+    | some i, "send_fut" => (parseOp ("send" :: rest)).map (fun o => .fut i o)
+    | some i, "send_batch_fut" => (parseOp ("send_batch" :: rest)).map (fun o => .fut i o)
+    | some i, "recv_fut" => (parseOp ("recv" :: rest)).map (fun o => .fut i o)
+    | some i, "recv_batch_fut" => (parseOp ("recv_batch" :: rest)).map (fun o => .fut i o)
+    | _, _ => none
+  | ["poll", f] => (parseFutName f).map .poll
+  | ["wakes", f] => (parseFutName f).map .wakes
+  | ["dropfut", f] => (parseFutName f).map .dropfut
+  | ["drop", f] =>
+    match parseFutName f with
+    | some i => some (.dropfut i)
+    | none => (parseOp ws).map .base
+  | _ => (parseOp ws).map .base
+
+def parseResF (futOps : List (Nat × Op)) (op : OpF) (tok : String) : Option Res :=
+  match tok with
+  | "invalid:busy" => some { tag := .busy }
+  | "invalid:nofut" => some { tag := .noFut }
+  | "invalid:done" => some { tag := .futDone }
+  | _ =>
+  match op with
+  | .base o => parseRes o tok
+  | .fut _ o => parseRes (.close (o.handle?.getD ⟨.tx, 0⟩)) tok
+  | .poll f =>
+    if tok == "pending" then some { tag := .pending }
+    else if tok.startsWith "ready:" then
+      match futOps.lookup f with
+      | some o => parseRes o (tok.drop 6).toString
+      | none => none
+    else none
+  | .wakes _ =>
+    match tok.splitOn ":" with
+    | ["n", k] => k.toNat?.map (fun k => if k = 0 then { tag := .ok, val := .b false } else { tag := .ok })
+    | _ => none
+  | .dropfut _ =>
+    if tok == "ok" then some { tag := .ok, val := .b false }
+    else if tok == "ok:woken" then some { tag := .ok }
+    else none
+
 def parseDropsB (ws : List String) : Option (List (Nat × Nat × Nat)) :=
   ws.mapM fun w =>
     match w.splitOn ":" with
@@ -257,6 +313,15 @@ def step (st : CaseSt) (op res : List String) : Except String (CaseSt × List St
   match op with
   | "P" :: _ | "S" :: _ | "A" :: _ | "L" :: _ => .ok (st, [])
   | "C" :: tid :: optoks =>
+    if st.futMode then
+      match tid.toNat?, parseOpF optoks with
+      | some t, some o =>
+        let fo := match o with
+          | .fut f inner => (f, inner) :: st.futOps
+          | _ => st.futOps
+        .ok ({ st with histF := .call t o :: st.histF, nOps := st.nOps + 1, futOps := fo }, [])
+      | _, _ => .ok ({ st with skip := some s!"skipped:op:{optoks.headD "?"}" }, [])
+    else
     match tid.toNat?, parseOp optoks with
     | some t, some o =>
       if st.seqMode then
@@ -269,6 +334,21 @@ def step (st : CaseSt) (op res : List String) : Except String (CaseSt × List St
     match tid.toNat? with
     | none => .error "bad-tid"
     | some t =>
+      if st.futMode then
+        let opOf := st.histF.findSome? (fun e => match e with
+          | .call u o => if u = t then some o else none
+          | _ => none)
+        match opOf with
+        | none => .error "return-without-call"
+        | some o =>
+          match parseResF st.futOps o r with
+          | none => .error s!"unparsed-result [{r}]"
+          | some ir =>
+            let ir' := match o with
+              | .base bo => normRes st.fl bo ir
+              | _ => ir
+            .ok ({ st with histF := .ret t ir' :: st.histF }, [])
+      else
       if st.seqMode then
         match st.pending with
         | none => .error "model=return-without-call"
@@ -301,7 +381,8 @@ def step (st : CaseSt) (op res : List String) : Except String (CaseSt × List St
           | none => .error "unparsed-result"
           | some ir => .ok ({ st with hist := .ret t (normRes st.fl o ir) :: st.hist }, [])
   | "X" :: status :: _ =>
-    if status.startsWith "invalid" then .ok ({ st with skip := some "skipped:invalid-case" }, [])
+    if st.futMode && !status.startsWith "invalid" then .ok ({ st with status := status }, [s!"status:{(status.splitOn ":").headD ""}"])
+    else if status.startsWith "invalid" then .ok ({ st with skip := some "skipped:invalid-case" }, [])
     else if st.seqMode then
       match st.pending with
       | none => .ok ({ st with status := status }, [s!"status:{(status.splitOn ":").headD ""}"])
@@ -317,7 +398,8 @@ def step (st : CaseSt) (op res : List String) : Except String (CaseSt × List St
     match parseDrops toks with
     | none => .error "unparsed-D-line"
     | some d =>
-      if st.seqMode then
+      if st.futMode then .ok ({ st with drops := some d }, [])
+      else if st.seqMode then
         match st.b with
         | some b =>
           -- broadcast: `<id>:<drops>/<created>`; every payload (the original and one clone per delivery) is dropped
@@ -363,7 +445,32 @@ def finish (liveness : Bool) (st : CaseSt) : Except String (List String) :=
   match st.skip with
   | some why => .ok [why]
   | none =>
-    if st.seqMode then .ok ["seq-case"]
+    if st.futMode then
+      let h := st.histF.reverse
+      let cfgF : Cfg := { hot := true, granular := true }
+      let quiesce := liveness && st.status.startsWith "deadlock"
+      match linearizeF st.fl cfgF h quiesce with
+      | none =>
+        if quiesce ∧ (linearizeF st.fl cfgF h false).isSome then
+          .error s!"blocked-op-enabled-at-quiescence sig={st.flTok}:fut:blocked-enabled status={st.status}"
+        else if (linearizeF st.fl { cfgF with wakeRule := false } h false).isSome then
+          -- explainable only if a polled, pending future that got no wake-up is allowed to be enabled: a lost wakeup
+          let kinds := st.futOps.map (fun x => match x.2 with
+            | .snd .send _ _ => "send_fut" | .snd _ _ _ => "send_batch_fut"
+            | .rcv .recv _ _ => "recv_fut" | _ => "recv_batch_fut")
+          let sigs := (kinds.eraseDups).map (fun k => s!"{st.flTok}:{k}:pending-enabled-not-woken")
+          .error s!"pending-enabled-not-woken sig={",".intercalate sigs}"
+        else
+          let k := (List.range (h.length + 1)).find? (fun k => (linearizeF st.fl cfgF (h.take k) false).isNone)
+          .error s!"not-linearizable (futures) prefix={k.getD 0} of={h.length}"
+      | some (x, _) =>
+        match st.drops with
+        | none => .ok ["linF-ok"]
+        | some d =>
+          match compareDrops x.s d with
+          | .ok _ => .ok ["linF-ok", "drops-checked"]
+          | .error m => .error m
+    else if st.seqMode then .ok ["seq-case"]
     else
       let h := st.hist.reverse
       let quiesce := liveness && st.status.startsWith "deadlock"
